@@ -75,7 +75,7 @@ func genC07(c *RunCtx) []*Batch {
 		// re-execute under the race detector
 		return runRaceChild(c, "C07")
 	}
-	nExpr := c.N(40, 1500)
+	nExpr := c.N(90, 1500)
 	calls, progs := 0, 0
 	for k := 0; k < nExpr; k++ {
 		var t *GT
